@@ -811,6 +811,47 @@ def _alarm(signum, frame):
 _PROXY_NAMES = ("SymSeq", "SymInt", "SymBool", "SymReal", "SymStr", "SymChar", "ZStr", "ZBytes", "NumStr", "'Gen'", "SymKey", "Piece")
 
 
+_VERIF_DIR = __import__("os").path.dirname(__import__("os").path.dirname(__import__("os").path.abspath(__file__)))
+_OUT_OF_SYNC = (AttributeError, KeyError, TypeError, NameError, IndexError, ImportError)
+
+
+def harness_out_of_sync(e):
+    """an exception of the 'name / shape not as expected' kind whose innermost frame is the harness's own code (checks/, sx/, ref/), not the
+    code under test: the harness could not drive this tree (e.g. an internal attribute it reaches into was renamed).  That is a harness
+    error, never a finding.  Exceptions the doubles raise on purpose (RuntimeError, ValueError, ...) are not of this kind."""
+    if not isinstance(e, _OUT_OF_SYNC):
+        return False
+    tb = e.__traceback__
+    last = None
+    while tb is not None:
+        last = tb
+        tb = tb.tb_next
+    if last is None:
+        return False
+    fn = __import__("os").path.abspath(last.tb_frame.f_code.co_filename)
+    return fn.startswith(_VERIF_DIR + "/checks/") or fn.startswith(_VERIF_DIR + "/ref/") or (fn.startswith(_VERIF_DIR + "/sx/") and not fn.endswith("hooks.py") and not fn.endswith("vals.py") and not fn.endswith("symsql.py") and not fn.endswith("symre.py") and not fn.endswith("protostub.py") and not fn.endswith("crypto_models.py"))
+
+
+def _harness_class_names():
+    out = set()
+    import sys as _s
+    for n, m in list(_s.modules.items()):
+        if m is not None and (n.startswith("checks.") or n == "checks"):
+            for k, v in list(vars(m).items()):
+                if isinstance(v, type) and getattr(v, "__module__", "").startswith("checks"):
+                    out.add(k)
+    return out
+
+
+def stub_incomplete(e):
+    """the code under test asked a stand-in object of the harness for something it does not have: a limitation of the stand-in"""
+    if not isinstance(e, AttributeError):
+        return False
+    import re as _r
+    m = _r.search(r"'(\w+)' object has no attribute", str(e))
+    return bool(m) and m.group(1) in _harness_class_names()
+
+
 def _all_proxy_names():
     out, todo = set(_PROXY_NAMES), [Sym]
     while todo:
@@ -902,6 +943,12 @@ def explore(fn, max_paths=20000, timeout_s=None, want_samples=True, expected=())
                         st["paths"] += 1
                     elif _proxy_leak(e):
                         st["inconclusive"].append("Unsupported: proxy reached C-level code: %s: %s" % (type(e).__name__, str(e)[:160]))
+                    elif stub_incomplete(e):
+                        st["inconclusive"].append("Unsupported: a stand-in object of the harness lacks what the code asked for: %s" % str(e)[:160])
+                    elif harness_out_of_sync(e):
+                        import traceback
+                        tb = traceback.extract_tb(e.__traceback__)
+                        st.setdefault("harness_errors", []).append("harness out of sync with this tree: %s: %s at %s:%d" % (type(e).__name__, str(e)[:160], tb[-1].filename.split("/")[-1], tb[-1].lineno))
                     else:
                         st["paths"] += 1
                         import traceback
@@ -959,8 +1006,11 @@ def run_concrete(fn, values, expected=()):
             import traceback
             tb = traceback.extract_tb(e.__traceback__)
             where = "; ".join("%s:%d %s" % (f.filename.split("/")[-1], f.lineno, f.name) for f in tb[-4:])
-            out["failed"].append("raised %s: %s" % (type(e).__name__, str(e)[:200]))
-            out["where"] = where
+            if harness_out_of_sync(e) or stub_incomplete(e):
+                out["error"] = "harness out of sync with this tree: %s: %s at %s" % (type(e).__name__, str(e)[:160], where)
+            else:
+                out["failed"].append("raised %s: %s" % (type(e).__name__, str(e)[:200]))
+                out["where"] = where
     finally:
         CTX = None
     return out
